@@ -939,6 +939,8 @@ def it_len(P, c, args, dt):
     t = tgt(args[0])
     if isinstance(t, (ListIter, SliceIter)):
         n = t.remaining()
+    elif is_range(t) and t.f[0].concrete and t.f[1].concrete:
+        n = max(0, t.f[1].sval() - t.f[0].sval())
     else:
         raise Unsupported('len of lazy iterator')
     if c.method == 'size_hint':
